@@ -149,6 +149,141 @@ def bterm(x):
     raise HarnessError(f"not a truth value: {type(x)}")
 
 
+def _is_nan(x):
+    return isinstance(x, (float, np.floating)) and x != x
+
+
+def _inf_sign(x):
+    """+1 / -1 if x is an infinite float (or SymInf), else 0."""
+    if isinstance(x, SymInf):
+        return x.sign
+    if isinstance(x, (float, np.floating)):
+        f = float(x)
+        if f == float("inf"):
+            return 1
+        if f == float("-inf"):
+            return -1
+    return 0
+
+
+class SymInf:
+    """+inf / -inf used as a sentinel next to exact reals ("no best value yet").  Only the operations whose result does not depend on
+    an unknown sign are defined; anything that would be NaN or sign-dependent is an encoding boundary."""
+
+    __slots__ = ("sign",)
+
+    def __init__(self, sign):
+        self.sign = 1 if sign > 0 else -1
+
+    def __repr__(self):
+        return "S(inf)" if self.sign > 0 else "S(-inf)"
+
+    def __float__(self):
+        return float("inf") * self.sign
+
+    def __hash__(self):
+        return hash(float(self))
+
+    def __deepcopy__(self, memo):
+        return self
+
+    def __neg__(self):
+        return SymInf(-self.sign)
+
+    def __pos__(self):
+        return self
+
+    def __abs__(self):
+        return SymInf(1)
+
+    def __bool__(self):
+        return True
+
+    def _finite(self, o):
+        return _inf_sign(o) == 0 and (isinstance(o, SymReal) or _frac(o) is not None)
+
+    def __add__(self, o):
+        so = _inf_sign(o)
+        if so and so != self.sign:
+            raise HarnessError("inf - inf (NaN) in the exact-real domain")
+        if so or self._finite(o):
+            return self
+        return NotImplemented
+    __radd__ = __add__
+
+    def __sub__(self, o):
+        so = _inf_sign(o)
+        if so and so == self.sign:
+            raise HarnessError("inf - inf (NaN) in the exact-real domain")
+        if so or self._finite(o):
+            return self
+        return NotImplemented
+
+    def __rsub__(self, o):
+        return (-self).__add__(o)
+
+    def _sign_of(self, o):
+        so = _inf_sign(o)
+        if so:
+            return so
+        o = SymReal.lift(o) if not isinstance(o, SymReal) else o
+        if o is NotImplemented:
+            return None
+        if o.c is None:
+            raise HarnessError("infinity multiplied / divided by a value of unknown sign")
+        if o.c == 0:
+            raise HarnessError("inf * 0 (NaN) in the exact-real domain")
+        return 1 if o.c > 0 else -1
+
+    def __mul__(self, o):
+        sg = self._sign_of(o)
+        return NotImplemented if sg is None else SymInf(self.sign * sg)
+    __rmul__ = __mul__
+
+    def __truediv__(self, o):
+        if _inf_sign(o):
+            raise HarnessError("inf / inf (NaN) in the exact-real domain")
+        sg = self._sign_of(o)
+        return NotImplemented if sg is None else SymInf(self.sign * sg)
+
+    def __rtruediv__(self, o):
+        if self._finite(o):
+            return _const(_ZERO)
+        return NotImplemented
+
+    def _cmp(self, o, op):
+        so = _inf_sign(o)
+        if so:
+            return bool(op(self.sign, so))
+        if self._finite(o):
+            return bool(op(self.sign, 0))
+        return NotImplemented
+
+    def __lt__(self, o):
+        return self._cmp(o, lambda a, b: a < b)
+
+    def __le__(self, o):
+        return self._cmp(o, lambda a, b: a <= b)
+
+    def __gt__(self, o):
+        return self._cmp(o, lambda a, b: a > b)
+
+    def __ge__(self, o):
+        return self._cmp(o, lambda a, b: a >= b)
+
+    def __eq__(self, o):
+        so = _inf_sign(o)
+        if so:
+            return so == self.sign
+        if o is None or self._finite(o):
+            return False
+        return NotImplemented
+
+    def __ne__(self, o):
+        r = self.__eq__(o)
+        return r if r is NotImplemented else not r
+
+
 class SymReal:
     """An exact real: either a concrete Fraction `c`, or z3 terms n/d (d None = 1)."""
 
@@ -237,6 +372,10 @@ class SymReal:
 
     # -- arithmetic
     def _addsub(self, o, sign):
+        if _is_nan(o):
+            return float("nan")          # NaN padding propagates like in float arithmetic (it is never a symbolic value)
+        if _inf_sign(o):
+            return SymInf(_inf_sign(o) * sign)
         o = SymReal.lift(o)
         if o is NotImplemented:
             return o
@@ -270,6 +409,10 @@ class SymReal:
         return self._addsub(o, -1)
 
     def __rsub__(self, o):
+        if _is_nan(o):
+            return float("nan")
+        if _inf_sign(o):
+            return SymInf(_inf_sign(o))
         o = SymReal.lift(o)
         return o if o is NotImplemented else o._addsub(self, -1)
 
@@ -290,6 +433,10 @@ class SymReal:
         return SymReal(z3.If(t >= 0, t, -t))
 
     def __mul__(self, o):
+        if _is_nan(o):
+            return float("nan")
+        if _inf_sign(o):
+            return SymInf(_inf_sign(o)).__mul__(self)
         if isinstance(o, (bool, np.bool_)):
             return self if o else _const(_ZERO)
         if isinstance(o, SymBool):
@@ -324,6 +471,10 @@ class SymReal:
     __rmul__ = __mul__
 
     def __truediv__(self, o):
+        if _is_nan(o):
+            return float("nan")
+        if _inf_sign(o):
+            return _const(_ZERO)
         o = SymReal.lift(o)
         if o is NotImplemented:
             return o
@@ -352,6 +503,10 @@ class SymReal:
         return SymReal(sn * o.d, self.d * o.n)
 
     def __rtruediv__(self, o):
+        if _is_nan(o):
+            return float("nan")
+        if _inf_sign(o):
+            return SymInf(_inf_sign(o)).__truediv__(self)
         o = SymReal.lift(o)
         return o if o is NotImplemented else o.__truediv__(self)
 
@@ -369,6 +524,10 @@ class SymReal:
 
     # -- comparisons
     def _cmp(self, o, op):
+        if _is_nan(o):
+            return False
+        if _inf_sign(o):
+            return bool(op(0, _inf_sign(o)))
         o = SymReal.lift(o)
         if o is NotImplemented:
             return o
@@ -400,7 +559,7 @@ class SymReal:
         return self._cmp(o, lambda a, b: a > b)
 
     def __eq__(self, o):
-        if o is None:
+        if o is None or _inf_sign(o) or _is_nan(o):
             return False
         o = SymReal.lift(o)
         if o is NotImplemented:
@@ -503,7 +662,10 @@ def sreal(x) -> SymReal:
 def sym_ite(c, a, b):
     """if-then-else on reals; c is a z3 Bool / SymBool / bool."""
     if isinstance(c, (bool, np.bool_)):
-        return sreal(a) if c else sreal(b)
+        r = a if c else b
+        return SymInf(_inf_sign(r)) if _inf_sign(r) else sreal(r)
+    if _inf_sign(a) or _inf_sign(b):
+        raise HarnessError("if-then-else between an infinite sentinel and a real under a symbolic condition")
     if isinstance(c, SymBool):
         c = c.t
     a, b = sreal(a), sreal(b)
@@ -529,8 +691,20 @@ def _dedup(items):
     return out
 
 
+def _split_inf(items):
+    items = list(items)
+    pos = any(_inf_sign(x) > 0 for x in items)
+    neg = any(_inf_sign(x) < 0 for x in items)
+    return [x for x in items if not _inf_sign(x)], pos, neg
+
+
 def smax(items, first_wins=True):
     """n-ary max with Python/numpy tie semantics irrelevant on values (value-level)."""
+    items, pos, neg = _split_inf(items)
+    if pos:
+        return SymInf(1)
+    if neg and not items:
+        return SymInf(-1)
     items = _dedup(items)
     if not items:
         raise ValueError("max() of an empty sequence")
@@ -550,6 +724,11 @@ def smax(items, first_wins=True):
 
 
 def smin(items):
+    items, pos, neg = _split_inf(items)
+    if neg:
+        return SymInf(-1)
+    if pos and not items:
+        return SymInf(1)
     items = _dedup(items)
     if not items:
         raise ValueError("min() of an empty sequence")
@@ -568,7 +747,7 @@ def smin(items):
 
 
 def ssum(items, start=0):
-    acc = sreal(start)
+    acc = start if (_inf_sign(start) or _is_nan(start)) else sreal(start)
     for x in items:
         acc = acc + x
     return acc
@@ -576,6 +755,10 @@ def ssum(items, start=0):
 
 def is_symbolic(x) -> bool:
     return (isinstance(x, SymReal) and x.c is None) or isinstance(x, SymBool)
+
+
+def _all_real(items):
+    return all(isinstance(x, (SymReal, SymInf, int, float, Fraction, np.integer, np.floating)) and not isinstance(x, bool) for x in items)
 
 
 # ---------------------------------------------------------------- builtins replacements
@@ -612,6 +795,8 @@ _EXP = z3.Function("EXP", z3.RealSort(), z3.RealSort())
 
 
 def usq(x):
+    if _is_nan(x):
+        return x
     x = sreal(x)
     if x.c is not None:
         return _const(x.c * x.c)
@@ -624,6 +809,8 @@ def usq(x):
 
 
 def usqrt(x):
+    if _is_nan(x):
+        return x
     x = sreal(x)
     if x.c is not None:
         from math import isqrt
